@@ -436,6 +436,32 @@ func c16(c *Ctx) {
 
 	c.R.Rule("R16.5", "create/update add the package owner reference with Controller=false on the found edge", 4,
 		"without the package as plain owner an object dropped by a new revision is garbage collected together with its user data")
+	// the package reference is found by name == the revision's parent-package label: the label
+	// the package manager writes must be the package's name itself, not something derived from it
+	if mr := c.method("internal/controller/pkg/manager", "Reconciler", "Reconcile"); mr != nil {
+		n := 0
+		for _, b := range mr.Blocks {
+			for _, in := range b.Instrs {
+				mu, ok := in.(*ssa.MapUpdate)
+				if !ok {
+					continue
+				}
+				if k, isC := cfgx.ConstString(mu.Key); !isC || k != "pkg.crossplane.io/package" {
+					continue
+				}
+				n++
+				v := mu.Value
+				if mi, ok := v.(*ssa.MakeInterface); ok {
+					v = mi.X
+				}
+				ci, isCall := v.(*ssa.Call)
+				c.R.Check(isCall && strings.HasSuffix(cfgx.CalleeName(ci), ".GetName"), load.FuncName(mr)+": parent label #"+itoa(n), c.pos(mu.Pos()), "the parent-package label is the package's name as it stands", "the parent-package label is not the package's GetName() itself: GetPackageOwnerReference compares it with the owner reference's full name, so a derived (truncated, normalised) value finds no package reference")
+			}
+		}
+		if n == 0 {
+			c.R.Unknown(load.FuncName(mr)+": parent label", c.pos(mr.Pos()), "no write of the pkg.crossplane.io/package label found")
+		}
+	}
 	cre := c.method(pkg, "APIEstablisher", "create")
 	for _, f := range []*ssa.Function{cre, upd} {
 		if f == nil {
@@ -501,7 +527,9 @@ func c16(c *Ctx) {
 				written := flow.Root(underIface(a[1]))
 				okW := written == holder
 				if !okW {
-					for _, so := range cfgx.Calls(f, func(ci ssa.CallInstruction) bool { return strings.HasSuffix(cfgx.CalleeName(ci), ".SetOwnerReferences") }) {
+					for _, so := range cfgx.Calls(f, func(ci ssa.CallInstruction) bool {
+						return strings.HasSuffix(cfgx.CalleeName(ci), ".SetOwnerReferences")
+					}) {
 						if flow.Root(underIface(cfgx.Receiver(so))) != written || !cfgx.MustPass(so.Block(), w.Block()) {
 							continue
 						}
